@@ -111,7 +111,7 @@ on `stream.Merge`, i.e. on the same defect the ownership rule found (F2).
 /verif/evidence/Cnn.json   rewritten by every run
 /verif/reports/            violation reports named in "VIOLATION … replay=<path>" (git-ignored)
 /verif/controls/Cnn/*.diff 107 one-line control edits (tools/gen_controls.py)
-/verif/seeded/*/           160 sub-agent mutations with demonstration tests and meta.json
+/verif/seeded/*/           220 sub-agent mutations with demonstration tests and meta.json
 /verif/refactorings/*/     behaviour-preserving refactorings used as false-alarm tests
 /verif/tools/              baseline.sh, seed_import.sh, seed_confirm.sh, seed_run.sh, ref_run.sh, ref_all.sh, regress.sh,
                            gen_manifest.py, gen_matrix.py, gen_design.py, validate.py
@@ -365,8 +365,38 @@ to `/repo` itself, checked, and undone (`tools/seed_confirm.sh`, recorded in
   structural: no exported slice→slice function of xslices may return a result
   that is non-empty on *every* path (an unconditional `append(out, x)`).
 
+* Round 4 (60, after the round-4 refactoring hardening; prompts listed all eight
+  earlier mutations per property and asked for untouched functions, boundary
+  values, constructor/teardown paths): **35 caught at once, 25 missed**. The
+  misses fell into four groups. (a) *The rule existed under a sibling property*
+  (a seed filed under C01 breaks what `C02.cursor-validated` checks, a C11/C14
+  seed breaks what `C09.own-param` checks, C08 ← `C12.who-may-cancel`, C15 ←
+  `C05.initial-dedup`, C07 ← `C19.empty-in-empty-out`): the rules are now shared
+  (`C01.cursor-validated`, `C11/C14.source-closed`, `C08.first-error-wins`,
+  `C15.initial-dedup`, `C07.empty-in-empty-out`). (b) *A rule checked existence
+  where it must check every path*: `C03.shrink-zero` (slot cleared on every path
+  through the lowering of n, typestate), `C10.publish-before-signal` (every End
+  is decided by reading the close error), `C18.map-delegates` (the sync.Map call
+  precedes every return), `C09.own-param` (no return that skips the spawn),
+  `C08/C07.commit-after-success` (a pending-outcome typestate replaces "no
+  fallible call follows"; a simultaneous assignment needs a dead old value),
+  `C13.error-contract` (f's error is not swallowed on any path),
+  `C19.empty-in-empty-out` (per return: reachable by the empty input).
+  (c) *A missing necessary condition*: `C04` sign-aware modulo (Go's `%` keeps
+  the dividend's sign: `(back-1) % len` is not a reduction), `C04.canonical-empty`,
+  `C04.guard-tests-argument`, `C13.bounded|caller-does-not-work`,
+  `C16|send-under-lock`, `C18.lazy-once|read-after-init`, `C11.who-may-cancel`,
+  `C12|reflect-loop-exit`, `C18/C10.ctx-arm-returns-err`.
+  (d) *New function-specific rules*: `C19.intersect-universal` (typestate over
+  the loop nest with flag threading), `C19.heap-nonempty` (Pop/Peek evidence).
+  After these, all 60 are reported. The new rules then alarmed on 7 of the 240
+  kept refactorings (checks living in a helper frame, a background helper that
+  returns nil when the library's own context is cancelled, a send inside a
+  literal handed to a lock wrapper, the quantifier extracted into `inAll`); each
+  was removed by making the rule follow the helper / the caller's context only.
+
 A rule written after seeing a seed says so above; that is the honest reading of
-"caught": all 160 seeds of rounds 1-3 are reported today; in rounds 2 and 3, 81 of 120 were
+"caught": all 220 seeds are reported today; in rounds 2-4, 116 of 180 were
 reported by the rules that existed when the seed arrived.
 
 ### 8.2 Controls
